@@ -288,8 +288,11 @@ LAW(L1_list_history, RC, 30000, 1500000, 400, "a bulk update whose rejected entr
         } else if (form == 2) {
           vector<size_t> idx; for (size_t k = 0; k < ma.size(); ++k) if (c.flag()) idx.push_back(k);
           for (size_t k = idx.size(); k > 1; --k) swap(idx[k - 1], idx[c.below(k)]);
+          // positions beyond the list: the code skips them silently (undocumented); raising would be as good, reading past the end is not
+          if (c.oneIn(4)) idx.insert(idx.begin() + static_cast<long>(c.below(idx.size() + 1)), ma.size() + c.pick<size_t>({0, 0, 1, 5, 1000000}));
           c.desc << "createSubList(#{"; for (auto i : idx) c.desc << i << " "; c.desc << "})->L" << B;
-          out.reset(new ParameterList(la.createSubList(idx))); for (auto i : idx) res.push_back(w.newObj(w.objs[ma[i]]));
+          try { out.reset(new ParameterList(la.createSubList(idx))); } catch (Exception&) { c.desc << "!"; break; } catch (std::out_of_range&) { c.desc << "!"; break; }
+          for (auto i : idx) if (i < ma.size()) res.push_back(w.newObj(w.objs[ma[i]]));
         } else {
           if (ma.empty()) { c.desc << "nop"; break; } size_t k = c.below(ma.size()); c.desc << "createSubList(#" << k << ")->L" << B;
           out.reset(new ParameterList(la.createSubList(k))); res.push_back(w.newObj(w.objs[ma[k]]));
@@ -306,8 +309,10 @@ LAW(L1_list_history, RC, 30000, 1500000, 400, "a bulk update whose rejected entr
         } else {
           vector<size_t> idx; for (size_t k = 0; k < ma.size(); ++k) if (c.flag()) idx.push_back(k);
           for (size_t k = idx.size(); k > 1; --k) swap(idx[k - 1], idx[c.below(k)]);
+          if (c.oneIn(4)) idx.insert(idx.begin() + static_cast<long>(c.below(idx.size() + 1)), ma.size() + c.pick<size_t>({0, 0, 1, 5, 1000000}));
           c.desc << "shareSubList(#{"; for (auto i : idx) c.desc << i << " "; c.desc << "})->L" << B;
-          out.reset(new ParameterList(la.shareSubList(idx))); for (auto i : idx) res.push_back(ma[i]);
+          try { out.reset(new ParameterList(la.shareSubList(idx))); } catch (Exception&) { c.desc << "!"; break; } catch (std::out_of_range&) { c.desc << "!"; break; }
+          for (auto i : idx) if (i < ma.size()) res.push_back(ma[i]);
         }
         w.L[B] = std::move(out); w.M[B] = res; sharedOrCopied = true;
         break; }
